@@ -64,6 +64,35 @@ def as_container(kind, items):
     raise ValueError(kind)
 
 
+# multipliers the real code must refuse (NotImplemented -> TypeError): no `is_integer`, or a falsy one
+BAD_MULT = ['str', 'none', 'complex', 'decimal', 'list', 'dict', 'tuple', 'bytes', 'srat_half', 'sfloat', 'ssym',
+            'flt_half', 'flt_neg_half', 'frac_half', 'frac_third', 'npflt_half', 'npflt32_half']
+
+
+def bad_multiplier(kind):
+    import sympy
+    from decimal import Decimal
+    import numpy as np
+    return {'flt_half': 2.5, 'flt_neg_half': -1.5, 'frac_half': Fraction(5, 2), 'frac_third': Fraction(-7, 3),
+            'npflt_half': np.float64(2.5), 'npflt32_half': np.float32(-0.5),
+            'str': '2', 'none': None, 'complex': 2j, 'decimal': Decimal('2'), 'list': [2], 'dict': {'A': 2}, 'tuple': (2,), 'bytes': b'2',
+            'srat_half': sympy.Rational(5, 2), 'sfloat': sympy.Float(2.5), 'ssym': sympy.Symbol('n')}[kind]
+
+
+class UnitFraction(Fraction):
+    """an exact number that carries a `units` attribute (all `as_reactions` looks at when `units` is None)"""
+    units = 'per_second'
+
+
+def with_units(k, how):
+    if k is None or not how:
+        return k
+    if how == 'quantity':
+        from chempy.units import default_units as u
+        return float(k) / u.second
+    return UnitFraction(k)
+
+
 def mult_kind(node):
     return node.get('nk') or ('sint' if node.get('sint') else 'int')
 
@@ -79,6 +108,10 @@ def as_multiplier(kind, n):
         return {'np64': np.int64, 'np32': np.int32, 'np8': np.int8}[kind](n)
     if kind == 'frac':
         return Fraction(n, 1)
+    if kind == 'flt':        # an integral float (float.is_integer is truthy): accepted, the constant goes through float arithmetic
+        return float(n)
+    if kind.startswith('bad:'):
+        return bad_multiplier(kind[4:])
     return n
 
 
@@ -135,9 +168,24 @@ def gen_eq(rng, pool, kmode, inact=False, plain=True, p_both=0.2, p_zero=0.0):
                 e['K'] = rat_json(Fraction(rng.randint(1, 9), rng.randint(1, 9)))
         else:
             e['K'] = _rat(rng, kmode)
+        if rng.random() < 0.04:      # constructed with checks=() / dont_check: the operand may then lack a net effect
+            if rng.random() < 0.6 and e['reac']:
+                e['prod'] = [list(kv) for kv in e['reac']]
+            if rng.random() < 0.5:
+                e['checks'] = rng.choice([[], ['all_positive'], ['all_positive', 'all_integral', 'consistent_units']])
+            else:
+                e['dont_check'] = rng.choice([['any_effect'], ['any_effect', 'consistent_units']])
+            return e
         if _has_effect(e) or rng.random() < 0.03:
             return e
     return e
+
+
+def _unchecked(e):
+    """built without the any_effect check (checks=() or dont_check={'any_effect'}): an operand without net effect exists"""
+    if e.get('checks') is not None:
+        return 'any_effect' not in e['checks']
+    return 'any_effect' in (e.get('dont_check') or [])
 
 
 def _has_effect(e):
@@ -312,6 +360,10 @@ def build_eq(e, kmode='frac', **kw):
     from chempy import Equilibrium
     cont = dict if e['dict'] else OrderedDict
     mk = lambda l: cont((k, int(v)) for k, v in l)
+    if e.get('checks') is not None:
+        kw = dict(kw, checks=tuple(e['checks']))
+    if e.get('dont_check') is not None:
+        kw = dict(kw, dont_check=set(e['dont_check']))
     if e.get('set'):        # reac/prod given as sets of keys (multiplicity 1): `_init_stoich` turns them into sorted dicts
         assert e['dict'] and all(v == 1 for _, v in e['reac'] + e['prod'])
         mks = lambda l: set(k for k, _ in l)
@@ -385,7 +437,7 @@ def own_eval(t, kmode):
     if k == 'leaf':
         e = t['eq']
         vec = {s: v for s, v in _net(e).items() if v != 0}
-        if not vec:
+        if not vec and not _unchecked(e):
             raise _Pred('ValueError')
         K = e['K']
         if K is not None:
@@ -581,6 +633,13 @@ class C11(Property):
             cases.append({'op': 'eliminate', 'wrt': 'X', 'kmode': 'frac', 'cont': cont,
                           'eqs': [elim_eq(6, 'P', 2), elim_eq(-4, 'Q', 3), elim_eq(9, 'R', 5)]})
             cases.append({'op': 'eliminate', 'wrt': 'X', 'kmode': 'frac', 'cont': cont, 'eqs': []})
+        # refusal of multipliers that are not integers (every kind, n*e and e*n), integral floats accepted
+        base = elim_eq(-2, 'P', rat_json(Fraction(3, 2)))
+        for kind in BAD_MULT:
+            for right in (False, True):
+                cases.append({'op': 'rmul', 'kmode': 'frac', 'eq': base, 'n': None, 'nk': 'bad:' + kind, 'right': right})
+        for nn in (2, -3, 1, 0):
+            cases.append({'op': 'rmul', 'kmode': 'frac', 'eq': base, 'n': nn, 'nk': 'flt', 'right': nn < 0})
         for m in range(0, 211):
             cases.append({'op': 'primefactors', 'n': m, 'negate': m % 2 == 1})
         step = 1 if tier == 'thorough' else 3
@@ -601,7 +660,7 @@ class C11(Property):
                 eqs = []
                 while len(eqs) < m:
                     e = gen_eq(rng, pool, kmode, inact=weird and rng.random() < 0.3, plain=not weird, p_zero=0.1 if weird else 0.0)
-                    if _has_effect(e):
+                    if _has_effect(e) or _unchecked(e):
                         eqs.append(e)
                 nst = rng.randint(2, 5) if small else rng.randint(2, 7 if tier == 'quick' else 10)
                 c = {'op': 'history', 'kmode': kmode, 'pool': eqs, 'steps': gen_history(rng, m, nst, small)}
@@ -620,9 +679,13 @@ class C11(Property):
                 cases.append(plain_multipliers(c) if kmode == 'int' and has_zero_K(c) else c)
             elif r < 0.58:
                 e = gen_eq(rng, pool, kmode, inact=rng.random() < 0.5, plain=False, p_zero=0.1)
-                c = {'op': 'rmul', 'kmode': kmode, 'eq': e, 'n': rng.randint(-3, 3) if small else rng.randint(-5, 5), 'nk': rng.choice(MULT_KINDS),
-                     'right': rng.random() < 0.3}
-                cases.append(plain_multipliers(c) if kmode == 'int' and has_zero_K(c) else c)
+                c = {'op': 'rmul', 'kmode': kmode, 'eq': e, 'n': rng.randint(-3, 3) if small else rng.randint(-5, 5),
+                     'nk': rng.choice(MULT_KINDS + ([] if kmode == 'sym' else ['flt'])), 'right': rng.random() < 0.3}
+                if rng.random() < 0.08:
+                    c.update(n=None, nk='bad:' + rng.choice(BAD_MULT))
+                    cases.append(c)
+                else:
+                    cases.append(plain_multipliers(c) if kmode == 'int' and has_zero_K(c) else c)
             elif r < 0.68:
                 a = gen_eq(rng, pool, kmode, inact=rng.random() < 0.3, plain=rng.random() < 0.5, p_zero=0.05)
                 if rng.random() < 0.1:       # complete cancellation
@@ -630,6 +693,16 @@ class C11(Property):
                 else:
                     b = gen_eq(rng, pool, kmode if rng.random() < 0.95 else 'none', inact=rng.random() < 0.3)
                 cases.append({'op': rng.choice(['add', 'sub']), 'kmode': kmode, 'a': a, 'b': b})
+            elif r < 0.70:
+                e = gen_eq(rng, pool, 'none', inact=rng.random() < 0.4, plain=False, p_zero=0.15)
+                v = rng.random()
+                if v < 0.35 and e['reac']:
+                    e['prod'] = [list(kv) for kv in e['reac']]
+                if 0.25 < v < 0.6:
+                    side = rng.choice([x for x in ('reac', 'prod', 'ireac', 'iprod') if e[x]] or ['reac'])
+                    if e[side]:
+                        rng.choice(e[side])[1] = -rng.randint(1, 3)
+                cases.append({'op': 'checks', 'reac': e['reac'], 'prod': e['prod'], 'ireac': e['ireac'], 'iprod': e['iprod'], 'dict': e['dict']})
             elif r < 0.74:
                 cases.append(self._mk_case(rng, pool, kmode))
             elif r < 0.84:
@@ -659,7 +732,12 @@ class C11(Property):
                 kf = _rat(rng, 'frac') if which < 0.45 or which > 0.95 else None
                 kb = _rat(rng, 'frac') if 0.45 <= which < 0.9 or which > 0.95 else None
                 c0 = None if rng.random() < 0.4 else rat_json(Fraction(rng.randint(1, 9), rng.randint(1, 9)) * (0 if (rng.random() < 0.03 and km == 'frac') else 1))
-                cases.append({'op': 'as_reactions', 'kmode': km, 'eq': e, 'kf': kf, 'kb': kb, 'units_c0': c0})
+                ru = None
+                if rng.random() < 0.12 and (kf is not None or kb is not None):
+                    ru = rng.choice(['subclass', 'quantity'])      # a rate constant that carries units
+                    if ru == 'quantity':
+                        c0 = None
+                cases.append({'op': 'as_reactions', 'kmode': km, 'eq': e, 'kf': kf, 'kb': kb, 'units_c0': c0, 'rate_units': ru})
         return cases
 
     def _mk_case(self, rng, pool, kmode):
@@ -673,7 +751,35 @@ class C11(Property):
             e['prod'] = [list(kv) for kv in e['reac']]            # no effect
         elif m < 0.55:
             e['reac'], e['prod'] = [], []
-        elif m < 0.75:       # containers given as sets of keys
+        elif m < 0.9:        # the constructor's checks / dont_check arguments
+            e.pop('checks', None)
+            e.pop('dont_check', None)
+            v = rng.random()
+            if v < 0.2:          # both given: refused whatever they contain
+                e['checks'] = rng.choice([[], ['any_effect'], ['all_positive', 'any_effect']])
+                e['dont_check'] = rng.choice([[], ['any_effect']])
+            elif v < 0.35:       # unknown check name on an otherwise valid equilibrium: getattr fails
+                if not _has_effect(e) or any(x < 0 for _, x in e['reac'] + e['prod'] + e['ireac'] + e['iprod']):
+                    e = gen_eq(rng, pool, kmode)
+                    e.pop('checks', None)
+                    e.pop('dont_check', None)
+                if rng.random() < 0.5:
+                    e['checks'] = ['any_effect', 'no_such_check']
+                else:
+                    e['dont_check'] = ['spelling']
+            elif v < 0.7:        # explicit checks (order as given), negative coefficients only when all_positive is checked
+                names = rng.sample(['any_effect', 'all_positive', 'all_integral', 'consistent_units'], rng.randint(0, 4))
+                if 'all_positive' in names and e['reac'] and rng.random() < 0.4:
+                    e['reac'][0][1] = -1
+                if rng.random() < 0.4 and e['reac']:
+                    e['prod'] = [list(kv) for kv in e['reac']]
+                e['checks'] = names
+            else:
+                names = rng.sample(['any_effect', 'all_integral', 'consistent_units'], rng.randint(0, 3))
+                if rng.random() < 0.5 and e['reac']:
+                    e['prod'] = [list(kv) for kv in e['reac']]
+                e['dont_check'] = names
+        elif m < 0.97:       # containers given as sets of keys
             for kv in e['reac'] + e['prod']:
                 kv[1] = 1
             e['dict'], e['set'] = True, True
@@ -689,7 +795,8 @@ class C11(Property):
                 ks = []
             return dict(c, keys=ks)
         if op == 'as_reactions':
-            return dict(c, c0=1 if c['units_c0'] is None else c['units_c0'])
+            return dict(c, c0=1 if c['units_c0'] is None else c['units_c0'], units_given=c['units_c0'] is not None,
+                        rate_has_units=bool(c.get('rate_units')))
         return c
 
     # ---------------------------------------------------------------- real code
@@ -704,6 +811,9 @@ class C11(Property):
             if op == 'rmul':
                 n = as_multiplier(mult_kind(c), c['n'])
                 return show_equil(build_eq(c['eq'], km) * n if c.get('right') else n * build_eq(c['eq'], km))
+            if op == 'checks':
+                o = build_eq(dict(c, K=None, checks=[]), km)
+                return 'any_effect=%s;all_positive=%s' % (str(bool(o.check_any_effect())).lower(), str(bool(o.check_all_positive())).lower())
             if op == 'neg':
                 return show_equil(-build_eq(c['eq'], km))
             if op == 'add':
@@ -736,7 +846,8 @@ class C11(Property):
             if op == 'as_reactions':
                 e = build_eq(c['eq'], km)
                 units = None if c['units_c0'] is None else types.SimpleNamespace(molar=_K(c['units_c0'], 'frac'))
-                f, b = e.as_reactions(kf=_K(c['kf'], 'frac'), kb=_K(c['kb'], 'frac'), units=units)
+                f, b = e.as_reactions(kf=with_units(_K(c['kf'], 'frac'), c.get('rate_units')),
+                                      kb=with_units(_K(c['kb'], 'frac'), c.get('rate_units')), units=units)
                 return ';'.join('|'.join([show_stoich(r.reac), show_stoich(r.prod), show_stoich(r.inact_reac), show_stoich(r.inact_prod),
                                           show_K(r.param)]) for r in (f, b))
         except Exception as ex:
@@ -773,6 +884,53 @@ class C11(Property):
         from chempy import Equilibrium
         op = c['op']
         km = c.get('kmode', 'frac')
+        if op == 'rmul' and mult_kind(c).startswith('bad:'):
+            # a multiplier that is not an integer must be refused (an equilibrium scaled by it has no consistent constant)
+            try:
+                e = build_eq(c['eq'], km)
+            except ValueError:
+                return None
+            m = bad_multiplier(mult_kind(c)[4:])
+            try:
+                r = e * m if c.get('right') else m * e
+            except TypeError:
+                return None
+            except Exception as ex:
+                return 'multiplier %r: raised %s instead of TypeError' % (m, exc_name(ex))
+            return 'multiplier %r (not an integer) was accepted: %s' % (m, show_equil(r) if isinstance(r, Equilibrium) else repr(r)[:80])
+        if op == 'checks':
+            coeffs = [v for side in ('reac', 'prod', 'ireac', 'iprod') for _, v in c[side]]
+            want = (any(v != 0 for v in _net(c).values()), all(v >= 0 for v in coeffs))
+            o = build_eq(dict(c, K=None, checks=[]), km)
+            got = (bool(o.check_any_effect()), bool(o.check_all_positive()))
+            if got != want:
+                return 'check_any_effect(), check_all_positive() = %r, the coefficients say %r' % (got, want)
+            return None
+        if op == 'mk':
+            e = c['eq']
+            coeffs = [v for side in ('reac', 'prod', 'ireac', 'iprod') for _, v in e[side]]
+            default = {'any_effect', 'all_positive', 'all_integral', 'consistent_units'}
+            if e.get('checks') is not None and e.get('dont_check') is not None:
+                want = 'ValueError'
+            else:
+                names = set(e['checks']) if e.get('checks') is not None else default ^ set(e.get('dont_check') or [])
+                bad_name = bool(names - default)
+                fails = ('all_positive' in names and any(v < 0 for v in coeffs)) or ('any_effect' in names and not _has_effect(e))
+                if bad_name and fails:
+                    return None          # which of the two is met first depends on the set order
+                want = 'AttributeError' if bad_name else ('ValueError' if fails else 'ok')
+            try:
+                o = build_eq(e, km)
+                got = 'ok'
+            except Exception as ex:
+                got = exc_name(ex)
+            if got != want:
+                return 'constructor with checks=%r dont_check=%r: %s, expected %s' % (e.get('checks'), e.get('dont_check'), got, want)
+            if got == 'ok':
+                for nm, side in (('reac', 'reac'), ('prod', 'prod'), ('inact_reac', 'ireac'), ('inact_prod', 'iprod')):
+                    if dict(getattr(o, nm)) != {k: v for k, v in e[side]}:
+                        return 'constructor stored %s = %r for %r' % (nm, dict(getattr(o, nm)), e[side])
+            return None
         if op in ('expr', 'rmul', 'add', 'sub', 'neg'):
             if op == 'expr':
                 t = c['tree']
@@ -856,6 +1014,19 @@ class C11(Property):
             if got != want:
                 return 'intdiv(%d, %d) = %r, truncation toward zero gives %d' % (p, q, got, want)
             return None
+        if op == 'as_reactions' and c.get('rate_units') and c['units_c0'] is None:
+            # a rate constant with units but no `units` module: must be refused, not silently combined with c0 = 1
+            try:
+                obj = build_eq(c['eq'], km)
+            except ValueError:
+                return None
+            try:
+                obj.as_reactions(kf=with_units(_K(c['kf'], 'frac'), c['rate_units']), kb=with_units(_K(c['kb'], 'frac'), c['rate_units']), units=None)
+            except ValueError:
+                return None
+            except Exception as ex:
+                return 'as_reactions(rate constant with units, units=None) raised %s instead of ValueError' % exc_name(ex)
+            return 'as_reactions accepted a rate constant with units although units=None'
         if op == 'as_reactions':
             if (c['kf'] is None) == (c['kb'] is None) or c['eq']['K'] is None:
                 return None
@@ -868,7 +1039,10 @@ class C11(Property):
             if c0 == 0 or K == 0:
                 return None
             units = None if c['units_c0'] is None else types.SimpleNamespace(molar=c0)
-            obj = build_eq(e, km)
+            try:
+                obj = build_eq(e, km)
+            except ValueError:
+                return None
             f, b = obj.as_reactions(kf=_K(c['kf'], 'frac'), kb=_K(c['kb'], 'frac'), units=units)
             if dict(f.reac) != dict(obj.reac) or dict(f.prod) != dict(obj.prod) or dict(b.reac) != dict(obj.prod) or dict(b.prod) != dict(obj.reac):
                 return 'as_reactions: forward/backward stoichiometries are not the two directions of the equilibrium'
@@ -938,7 +1112,11 @@ class C11(Property):
         if op == 'eliminate':
             return 'eliminate:%d:%s' % (len(c['eqs']), c.get('cont', 'list'))
         if op in ('rmul',):
-            return 'rmul:%s' % ('neg' if c['n'] < 0 else 'zero' if c['n'] == 0 else 'pos')
+            if c['n'] is None:
+                return 'rmul:refused-multiplier:' + mult_kind(c)[4:]
+            return 'rmul:%s%s' % ('neg' if c['n'] < 0 else 'zero' if c['n'] == 0 else 'pos', ':float' if mult_kind(c) == 'flt' else '')
+        if op == 'mk' and (c['eq'].get('checks') is not None or c['eq'].get('dont_check') is not None):
+            return 'mk:checks-args'
         if op == 'as_reactions':
             return 'as_reactions:%s%s' % ('kf' if c['kf'] is not None else '', 'kb' if c['kb'] is not None else '')
         return op
